@@ -115,6 +115,19 @@ class Runner:
         self.stack = [[]]
         for w in case['watchers']:
             self._watch(w)
+        if case.get('cls_watch') and not self.on_class and cls is None:
+            # the class has watchers of its own (all parameters, both kinds): an assignment on the *instance* must
+            # never reach them - also when the instance dispatches through the class's Parameter objects
+            # (`per_instance=False`) and one of its own watcher lists has become empty again.  A call is logged
+            # under callback id 777, which the model does not know.
+            runner = self
+
+            def cls_cb(*events):
+                node = {'t': 'call', 'w': 777, 'evs': [[runner.names.index(e.name), runner._enc(e.old), runner._enc(e.new), e.type, WHAT[e.what]] for e in events],
+                        'flush': False, 'snap': [runner._val(i) for i in range(len(runner.names))], 'ch': [], 'res': 'ok'}
+                runner.stack[-1].append(node)
+            for oc in (True, False):
+                self.cls.param.watch(cls_cb, list(self.names), onlychanged=oc)
         self.steps = []
         # a second instance of the same class with watchers of its own: `other k` statements (in the program, in
         # context bodies, in callbacks of the first object) run the statements others[k] on it, each under its own
@@ -682,6 +695,9 @@ def gen_case(rng, prop, max_params=4, max_watchers=5, faults=False, size=8):
         no_shared_unwatch(l)
     if rng.random() < 0.08:
         extra['legacy_batch'] = True
+    if level == 'instance' and not second and rng.random() < 0.3 and '"clsSet"' not in json.dumps([program, bodies]):
+        # (not together with class-level assignments of a default, which are the class's own events)
+        extra['cls_watch'] = True
     if level == 'class' and rng.random() < 0.3:
         extra['constants'] = [i for i in range(n) if i not in events and rng.random() < 0.5]
     return {**extra, 'prop': prop, 'level': level, 'shared': shared, 'inherit': inherit, 'events': events, 'bounds': bounds, 'init': init, 'watchers': watchers,
@@ -758,7 +774,7 @@ def tags(case, impl):
                     t.append(f'stmt:{it["k"]}' + (':batched' if it['b'] else '') + ('' if it['res'] == 'ok' else ':raised'))
                     if it['k'] in ('set', 'key') and (it.get('new', 0) >= DYN_BASE or it.get('old', 0) >= DYN_BASE):
                         t.append('value:callable')
-    for k in ('legacy_batch', 'shared', 'inherit', 'others', 'constants'):
+    for k in ('legacy_batch', 'shared', 'inherit', 'others', 'constants', 'cls_watch'):
         if case.get(k):
             t.append('case:' + k)
     return t
